@@ -200,12 +200,15 @@ def lemma_C(ctx, mods, only=None):
                    "counterexample" if any(f[0] == "atomic_surroundings" for f in failures) else "holds", seconds=time.time() - t0, nontrivial=True)
 
     # ---- molecule_environment / atom_group_surroundings: molecule = slab rows 0 and 1
-    for fname in [w for w in ("molecule_environment", "atom_group_surroundings") if only in (None, w)]:
+    for fname in [w for w in ("molecule_environment", "molecule_environments", "atom_group_surroundings") if only in (None, w)]:
         ex, cr, slab, reg, Iv = fresh_setup(N)
         mol = A.FakeMol(np.array([P[0], P[1]], dtype=object).view(OArr), [6, 1])
         ex.base = [r.t > Sym._lift(0.01).t, r.t <= 8] + sep
         if fname == "molecule_environment":
             fn = lambda: cr.molecule_environment(mol, radius=r)
+        elif fname == "molecule_environments":
+            cr.symmetry_unique_molecules = lambda: [mol]
+            fn = lambda: cr.molecule_environments(radius=r)[0]
         else:
             cr.symmetry_unique_molecules = lambda: [mol]
             fn = lambda: cr.atom_group_surroundings([0, 1], radius=r)
@@ -217,7 +220,7 @@ def lemma_C(ctx, mods, only=None):
             if p.exc is not None:
                 ctx.harness_error("%s raised in lemma C: %r" % (fname, p.exc))
                 break
-            if fname == "molecule_environment":
+            if fname in ("molecule_environment", "molecule_environments"):
                 _, els, pos = p.value
             else:
                 (cel, cpos), (els, pos) = p.value
